@@ -101,7 +101,8 @@ def scenarios(draw, kinds=None, max_callers=4, limits=(1, 1, 2, 2, 3)):
           "choices": draw(st.lists(st.integers(0, 11), max_size=60)),
           "segs": draw(st.lists(st.sampled_from([0, 0, 1, 2, 7, 50, 1000]), max_size=5)),
           "dsegs": draw(st.lists(st.sampled_from([0, 0, 0, 1, 20, 60, 300, 5000]), max_size=4)),
-          "faults": [], "cancel": None, "server_closes": draw(st.sampled_from([0, 0, 0, 1, 2]))}
+          "faults": [], "cancel": None, "server_closes": draw(st.sampled_from([0, 0, 0, 1, 2])),
+          "runtime": draw(st.sampled_from(["asyncio", "asyncio", "trio"]))}
     if h2 and draw(st.integers(0, 2)) == 0:
         # scripted HTTP/2 peer actions (truthful GOAWAYs, resets, PING, raising the stream limit)
         script = []
@@ -115,6 +116,8 @@ def scenarios(draw, kinds=None, max_callers=4, limits=(1, 1, 2, 2, 3)):
     if draw(st.integers(0, 2)) == 0:
         sc["cancel"] = {"caller": draw(st.integers(0, n_callers - 1)), "style": draw(st.sampled_from(["task", "scope", "scope"])),
                         "at": draw(st.integers(1, 60))}
+        if sc["runtime"] == "trio":
+            sc["cancel"]["style"] = "scope"  # trio has no one-shot task cancellation
     return sc
 
 
@@ -283,8 +286,10 @@ def run_scenario(sc):
         world.faults = []
         await run.pool.aclose()
 
-    run = AioRun(world, pool_cfg, callers, choices=sc["choices"], segs=sc["segs"], dsegs=sc.get("dsegs", ()), allow_server_close=sc.get("server_closes", 0),
-                 on_quiescence=on_q, epilogue=epilogue, step_limit=6000)
+    from ..trio_run import make_run
+
+    run = make_run(sc.get("runtime"))(world, pool_cfg, callers, choices=sc["choices"], segs=sc["segs"], dsegs=sc.get("dsegs", ()),
+                                      allow_server_close=sc.get("server_closes", 0), on_quiescence=on_q, epilogue=epilogue, step_limit=6000)
     holder["run"] = run
     world.on_op = lambda op: mon.check(f"after op {op['seq']} ({op['kind']} on pipe {op['pipe']})")
     run.final_repr = None
@@ -352,7 +357,7 @@ def judge(sc, run, world, callers, mon, lost, q_stats):
     for c in callers:
         if c.error is not None:
             v7.append(V("C07", "caller-crashed", f"caller {c.id} ended with {c.error}", **base))
-    tags = [kind, f"N={sc['max_connections']}", f"callers={len(callers)}", f"origins={sc['n_origins']}"]
+    tags = [kind, f"N={sc['max_connections']}", f"callers={len(callers)}", f"origins={sc['n_origins']}", "runtime-" + (sc.get("runtime") or "asyncio")]
     if world.fired_faults:
         tags.append("fault-fired")
     if any(c.cancelled for c in callers):
@@ -394,6 +399,8 @@ def make_execute(prop_id):
         run, world, callers, mon, lost, q_stats, cfg = run_scenario(sc)
         vs, tags, nt, info = judge(sc, run, world, callers, mon, lost, q_stats)
         extra = poisoned_by_known(sc, run, callers)
+        if sc.get("runtime") == "trio":
+            extra = dict(extra, runtime="trio")
         vio = vs[prop_id]
         for v in vio:
             v["sig"].update(extra)
